@@ -349,8 +349,16 @@ macro_rules! with_env {
             9 => $f::<bourse_de::MarketEnv<4, 10>>($($arg),*),
             10 => $f::<bourse_de::MarketEnv<12, 2>>($($arg),*),
             11 => $f::<bourse_de::MarketEnv<66, 1>>($($arg),*),
+            // level-less environments sit behind the harness feature `zerolevel` (on by default): a tree that refuses
+            // LEVELS = 0 at compile time is then still checked with every other configuration
+            #[cfg(feature = "zerolevel")]
             12 => $f::<bourse_de::Env<0>>($($arg),*),
+            #[cfg(feature = "zerolevel")]
             _ => $f::<bourse_de::MarketEnv<2, 0>>($($arg),*),
+            #[cfg(not(feature = "zerolevel"))]
+            12 => $f::<bourse_de::Env<1>>($($arg),*),
+            #[cfg(not(feature = "zerolevel"))]
+            _ => $f::<bourse_de::MarketEnv<2, 3>>($($arg),*),
         }
     };
 }
